@@ -3,7 +3,7 @@
    the serializer's key/field table and the pre-parser's struct are translated from the sources on every run (Generated/Consts.v),
    so renaming or dropping a field on either side breaks these proofs. *)
 From Coq Require Import String.
-From SV Require Import Lib.Bytes Lib.LibFields Generated.Consts Model.CodeIdStr Model.LibIdentity Proofs.LibIdentityProofs.
+From SV Require Import Lib.Bytes Lib.LibFields Generated.Consts Model.CodeIdStr Model.LibIdentity Proofs.LibIdentityProofs Proofs.CodeIdCodec.
 Open Scope N_scope.
 
 Section C19.
@@ -36,6 +36,21 @@ Section C19.
   Proof. exact (known_paths did bp_print bp_parse bp_roundtrip did_eqb did_eqb_spec). Qed.
 End C19.
 
+(* the code-id string codec: printing then parsing gives the id back, for EVERY PE code id, Mach-O UUID and ELF build id outside the
+   ambiguous class (ELF build ids of at most 8 bytes, or of 16 bytes whose hex has no letter) *)
+Theorem C19_code_id_codec : forall c : cid, cid_wf c -> cid_unambiguous c = true -> cid_reparse c = Some c.
+Proof. exact code_id_roundtrip. Qed.
+
+(* hence the record round trip needs no hypothesis about the code id beyond well-formedness and unambiguity *)
+Theorem C19_lib_roundtrip_unconditional :
+  forall (did : Type) (bp_print : did -> bytes) (bp_parse : bytes -> option did), (forall d, bp_parse (bp_print d) = Some d) ->
+  forall l : lib did, (match l_code_id did l with Some c => cid_wf c /\ cid_unambiguous c = true | None => True end) ->
+    preparse_lib did bp_parse (ser_lib did bp_print l) = Some (info_of did l).
+Proof.
+  intros did bp_print bp_parse Hrt l H. apply (C19_lib_roundtrip did bp_print bp_parse Hrt). unfold code_id_ok.
+  destruct (l_code_id did l) as [c|]; [|exact I]. destruct H as [H1 H2]. apply code_id_roundtrip; assumption.
+Qed.
+
 (* the code-id string format is ambiguous (finding F-C19): an 8-byte ELF build id is read back as a PE code id, a 16-byte
    one whose hex has no letter as a Mach-O UUID, one shorter than 5 bytes not at all *)
 Theorem C19_code_id_refuted :
@@ -48,6 +63,8 @@ Proof. vm_compute. repeat split. Qed.
 Print Assumptions C19_lib_roundtrip.
 Print Assumptions C19_no_code_id_still_known.
 Print Assumptions C19_known.
+Print Assumptions C19_code_id_codec.
+Print Assumptions C19_lib_roundtrip_unconditional.
 Print Assumptions C19_code_id_refuted.
 
 (* non-vacuity: concrete ids of all three kinds do survive the string format *)
